@@ -143,6 +143,20 @@ func (x *c18) exercise(p gmsl.PDU, w *world, tag string) {
 		if prov, err := gmsl.NewAuthEvents(nil); err == nil {
 			_ = gmsl.Allowed(p, prov, userIDForSender)
 		}
+		// a sender lookup that answers "no such user" with (nil, nil), as the library's own code expects in places
+		lenient := func(roomID spec.RoomID, senderID spec.SenderID) (*spec.UserID, error) {
+			u, err := spec.NewUserID(string(senderID), true)
+			if err != nil {
+				return nil, nil
+			}
+			return u, nil
+		}
+		if prov, err := gmsl.NewAuthEvents(std[:3]); err == nil {
+			_ = gmsl.Allowed(p, prov, lenient)
+		}
+		if prov, err := gmsl.NewAuthEvents(nil); err == nil {
+			_ = gmsl.Allowed(p, prov, lenient)
+		}
 	})
 	// as part of the auth state of ordinary events
 	if p.StateKey() != nil {
